@@ -89,7 +89,7 @@ def case_strategy(tier, modes, damage_min, damage_max, max_files=None):
                 dict(zip(("size", "seed"), draw(st.sampled_from([(7, 188267), (100, 13065), (5000, 64089)]))), path=["p2"], mode="nz")]}
             src = {"kind": "own", "creator": "TorrentFile"}
         dmg = draw(damage_list(t, damage_min, damage_max)) if damage_max else []
-        return {"tree": t, "P": P, "meta": src, "content_path": draw(st.sampled_from(["root", "parent", "root", "parent", "root-symlink", "root-dot", "root-slash-dot", "root-rel"])), "damage": dmg,
+        return {"tree": t, "P": P, "meta": src, "content_path": draw(st.sampled_from(["root", "parent", "root", "parent", "root-symlink", "root-dot", "root-slash-dot", "root-rel", "link-dotdot"])), "damage": dmg,
                 # "prime": the same process first rechecks the intact payload; the damage is then applied in place with the
                 # old timestamps restored (bit rot, cp -p), so anything remembered per file from the first run is stale
                 "prime": draw(st.sampled_from([False, False, True])) if dmg else False}
@@ -182,6 +182,12 @@ def content_of(case, root, parent):
         return root + "/."
     if cp == "root-rel":
         return (os.path.basename(root), parent)
+    if cp == "link-dotdot" and os.path.isdir(root) and not os.path.islink(root):
+        # a spelling the operating system resolves, not string arithmetic: <link to the payload>/.. is the payload's parent
+        lnk = os.path.join(os.path.dirname(parent), "lnk")
+        if not os.path.lexists(lnk):
+            os.symlink(root, lnk)
+        return lnk + "/.."
     return root
 
 
